@@ -18,6 +18,7 @@
 EXTENDS Integers, Sequences, FiniteSets, SequencesExt, TLC
 
 CONSTANT Configs      \* set of records [v, nx, ny, g, mode, far]; far = wanted whole turns of the far-offset points (see Far)
+                      \* (mode "wide": also cols, rows = the columns / rows whose centres are the test angles)
 VARIABLE c
 
 Layouts  == {"sky", "zeroright", "planet", "zeroleft"}
@@ -93,18 +94,28 @@ CodeRow(ny, g, j) == Clip(RoundDiv(Pole(ny, g) - Half(g) - j, Cell(g)), 0, ny - 
 \*              a cell away from an edge must already resolve to the right cell)
 \* mode "grid": the cell edges and cell centres themselves (every multiple of half a cell, the seam at the map edge and
 \*              the poles included).  On an edge the property admits either adjacent cell: the expectation is a SET.
+\* mode "wide": maps of up to 2^22 columns (or rows) - far too many cells to enumerate.  The test angles are the centres of
+\*              the columns x.cols / rows x.rows named by the harness and the two units a quarter of a cell on either side of
+\*              each, the longitudes on three turns.  A cell is an interval, so EVERY real angle between centre - quarter and
+\*              centre + quarter lies in that cell, at least a quarter of a cell from its edges: the harness asks the samplers
+\*              at the float32 / float16 / ... numbers that fall in that window (request arrays of other dtypes).
+WideMode(x) == x.mode = "wide"
+ColCentre(v, nx, g, col) == West(v, nx, g, col) + Half(g)
+RowCentre(ny, g, r) == Pole(ny, g) - r * Cell(g) - Half(g)
 LonBase(x) ==
     LET P == Period(x.nx, x.g)  H == HalfP(x.nx, x.g) IN
-    IF x.mode = "full" THEN {k \in (0 - P - H)..(P + H) : LonOK(k)}
+    IF WideMode(x) THEN {ColCentre(x.v, x.nx, x.g, col) + d + t * P : col \in x.cols, d \in {0 - x.g, 0, x.g}, t \in {-1, 0, 1}}
+    ELSE IF x.mode = "full" THEN {k \in (0 - P - H)..(P + H) : LonOK(k)}
     ELSE IF x.mode = "grid" THEN {b * Half(x.g) : b \in (0 - 3 * x.nx)..(3 * x.nx)}
     ELSE {b * Half(x.g) + d : b \in (0 - 3 * x.nx)..(3 * x.nx), d \in {-1, 1}}
 LonOne(x) == {k \in LonBase(x) : 0 - HalfP(x.nx, x.g) <= k /\ k <= HalfP(x.nx, x.g)}
 \* whole turns of the far-offset points: the wanted number, reduced so that every intermediate value stays below 2^30
 Far(x) == Greater(3, Lesser(x.far, 268435456 \div Period(x.nx, x.g)))
 LonFar(x) == {k + s * Far(x) * Period(x.nx, x.g) : k \in LonOne(x), s \in {-1, 1}}
-LonPts(x) == LonBase(x) \cup LonFar(x)
+LonPts(x) == IF WideMode(x) THEN LonBase(x) ELSE LonBase(x) \cup LonFar(x)
 LatPts(x) ==
     LET Q == Pole(x.ny, x.g) IN
+    IF WideMode(x) THEN {RowCentre(x.ny, x.g, r) + d : r \in x.rows, d \in {0 - x.g, 0, x.g}} ELSE
     {Q, 0 - Q} \cup
     (IF x.mode = "full" THEN {j \in (0 - Q)..Q : LatOK(x.ny, x.g, j)}
      ELSE IF x.mode = "grid" THEN {Q - b * Half(x.g) : b \in 0..(2 * x.ny)}
@@ -189,6 +200,42 @@ Boundary(x) ==
           LET S == AdmSample(x.v, x.nx, x.ny, x.g, k, j) IN
           S # {} /\ S \subseteq 0..(x.nx * x.ny - 1) /\ Cardinality(S) <= 4
 
+\* ---------------------------------------------------------------- wide maps: the sampled columns / rows only
+\* The containment relation of layer (1) is asked about the closed form's cell directly (CHOOSE over 2^22 columns is out of
+\* reach): the cell contains the angle in its open interval, neither neighbour contains it even closed, it is the column / row
+\* the harness named, the same on the three turns, and what vec2pix computes in exact arithmetic.
+MirrorOf(v) == CASE v = "sky" -> "planet" [] v = "planet" -> "sky" [] v = "zeroright" -> "zeroleft" [] v = "zeroleft" -> "zeroright"
+Wide(x) ==
+    LET P == Period(x.nx, x.g) IN
+    /\ x.cols \subseteq 0..(x.nx - 1) /\ x.rows \subseteq 0..(x.ny - 1) /\ x.cols # {} /\ x.rows # {}
+    /\ \A col \in x.cols : \A d \in {0 - x.g, 0, x.g} : \A t \in {-1, 0, 1} :
+          LET k == ColCentre(x.v, x.nx, x.g, col) + d + t * P IN
+          /\ ColF(x.v, x.nx, x.g, k) = col
+          /\ InColumn(x.v, x.nx, x.g, col, k)
+          /\ x.nx > 1 => /\ ~InColumnClosed(x.v, x.nx, x.g, (col + 1) % x.nx, k)
+                         /\ ~InColumnClosed(x.v, x.nx, x.g, (col - 1) % x.nx, k)
+          /\ CodeCol(x.v, x.nx, x.g, k) = col
+    /\ \A r \in x.rows : \A d \in {0 - x.g, 0, x.g} :
+          LET j == RowCentre(x.ny, x.g, r) + d IN
+          /\ RowF(x.ny, x.g, j) = r
+          /\ InRow(x.ny, x.g, r, j) /\ 0 - Pole(x.ny, x.g) < j /\ j < Pole(x.ny, x.g)
+          /\ r > 0 => ~InRow(x.ny, x.g, r - 1, j)
+          /\ r < x.ny - 1 => ~InRow(x.ny, x.g, r + 1, j)
+          /\ CodeRow(x.ny, x.g, j) = r
+    \* the layouts' relations on the sampled columns: mirror image (the layout with the same cell edges), direction
+    /\ \A k \in LonPts(x) :
+          /\ ColF(MirrorOf(x.v), x.nx, x.g, k) = x.nx - 1 - ColF(x.v, x.nx, x.g, k)
+          /\ ColF(x.v, x.nx, x.g, k + Cell(x.g)) = (ColF(x.v, x.nx, x.g, k) + (IF x.v \in LeftInc THEN -1 ELSE 1)) % x.nx
+    /\ \A k \in LonPts(x), j \in LatPts(x) :
+          MapValue(x.nx, RowF(x.ny, x.g, j), ColF(x.v, x.nx, x.g, k)) \in 0..(x.nx * x.ny - 1)
+WideTable(x) ==
+    LET ks == SetToSortSeq(LonPts(x), <)
+        js == SetToSortSeq(LatPts(x), <)
+        cf == TLCEval([k \in LonPts(x) |-> ColF(x.v, x.nx, x.g, k)])
+        rf == TLCEval([j \in LatPts(x) |-> RowF(x.ny, x.g, j)])
+    IN [v |-> x.v, nx |-> x.nx, ny |-> x.ny, g |-> x.g, mode |-> x.mode, far |-> 0, ks |-> ks, js |-> js,
+        cells |-> [a \in DOMAIN js |-> [b \in DOMAIN ks |-> MapValue(x.nx, rf[js[a]], cf[ks[b]])]]]
+
 \* ---------------------------------------------------------------- the table handed to the harness
 \* (grid family: every entry of cells is the sorted sequence of admissible values instead of one value)
 GridTable(x) ==
@@ -207,7 +254,7 @@ StrictTable(x) ==
     IN [v |-> x.v, nx |-> x.nx, ny |-> x.ny, g |-> x.g, mode |-> x.mode, far |-> Far(x), ks |-> ks, js |-> js,
         cells |-> [a \in DOMAIN js |-> [b \in DOMAIN ks |-> MapValue(x.nx, rf[js[a]], cf[ks[b]])]]]
 
-Table(x) == IF x.mode = "grid" THEN GridTable(x) ELSE StrictTable(x)
+Table(x) == IF x.mode = "grid" THEN GridTable(x) ELSE IF WideMode(x) THEN WideTable(x) ELSE StrictTable(x)
 
 \* ---------------------------------------------------------------- state space: one state per configuration
 \* (only the first configuration of every chain is an initial state, so that TLC's workers share the rest)
@@ -224,17 +271,18 @@ Init == c \in Roots
 Next == c' \in Succ(c)
 Spec == Init /\ [][Next]_c
 
-Strict == c.mode # "grid"          \* the test angles of the configuration are never on a cell edge
+Strict == c.mode \in {"full", "edge"}          \* the test angles of the configuration are never on a cell edge (and the cells can be enumerated)
 UniqueInv == Strict => Unique(c)
 InRangeInv == Strict => InRange(c)
 PeriodicInv == Strict => Periodic(c)
 DirectionInv == Strict => Direction(c)
-ZeroAtInv == ZeroAt(c)
+ZeroAtInv == (~WideMode(c)) => ZeroAt(c)
 TopRowInv == Strict => TopRow(c)
 MirrorInv == Strict => Mirror(c)
 ClosedFormInv == Strict => ClosedForm(c)
 CodeShapeInv == Strict => CodeShape(c)
-BoundaryInv == (~Strict) => Boundary(c)
+BoundaryInv == (c.mode = "grid") => Boundary(c)
+WideInv == WideMode(c) => Wide(c)
 \* refinement step: a map with twice as many columns / rows splits every cell in two (action property over Next)
 Refines ==
     [][ Strict =>
